@@ -11,6 +11,11 @@ M = [
  ("C02", "nr-mod4-config-off", "config/_tabulation_factories.py", "if cutoffs.nr % 4 != 0:", "if False and cutoffs.nr % 4 != 0:"),
  ("C17", "dlpoly-header-first", "_dlpoly_writeTABLE.py", "_writeTableHeader(meshResolution, cutoff, gridPoints, outputbuilder)", "_writeTableHeader(meshResolution, cutoff, gridPoints, out)"),
  ("C08", "deriv-default", "_multi_range_potential_form.py", "    if rt is None:\n      return 0.0\n    return rt.deriv(r)", "    if rt is None:\n      return self.default_value + 1e-9\n    return rt.deriv(r)"),
+ ("C11", "nr-lt-0", "config/_config_parser.py", "if not nr is None and nr <= 0:", "if not nr is None and nr < 0:"),
+ ("C11", "dr-lt-0", "config/_config_parser.py", "if not dr is None and dr <= 0:", "if not dr is None and dr < 0:"),
+ ("C11", "rho-default-10", "config/_tabulation_factories.py", "cutoff_rho = 100.0", "cutoff_rho = 10.0"),
+ ("C11", "revert-snap", "config/_config_parser.py", "nr = self._rows_for_step(cutoff, dr)", "nr = int((cutoff/dr) + 1)"),
+ ("C11", "revert-truthy", "config/_config_parser.py", "if not nr is None and not dr is None and not cutoff is None:", "if nr and dr and cutoff:"),
  ("C03", "setfl-nr-minus-1", "eam_tabulation.py", None, None),
 ]
 def main():
